@@ -1365,7 +1365,7 @@ def _design_checks(tier):
     if tier == 'thorough':
         checks.append('MC_LogBlocks_two.cfg')
     jobs = [('check', c, {'workers': 6 if tier == 'thorough' else 4, 'timeout': 3000}) for c in checks]
-    jobs += [('bug', 'MC_LogBlocks_bug_%s.cfg' % b, {'workers': 2, 'timeout': 900}) for b in BUG_CFGS]
+    jobs += [('bug', 'MC_LogBlocks_bug_%s.cfg' % b, {'workers': 2, 'timeout': 3000}) for b in BUG_CFGS]
     with ThreadPoolExecutor(max_workers=4) as ex:
         res = list(ex.map(_tlc_job, jobs))
     for (_k, _n, r) in res:
